@@ -9,6 +9,9 @@
     tplay <t> <len> | drop sub|send|clock|mod|lis <i> | cb <frames>
     add spat <l> <sndcap> (a spatial sub-track: the same storage as the plain ones) | playerr | tplayerr <t>
     (a play whose `into_sound()` fails: `Store.play _ none`)
+    add sub <sndcap> <subcap> | add spat <l> <sndcap> <subcap> | tadd <p> sub <sndcap> <subcap> | tadd <p> spat <l> <sndcap> <subcap>
+    (sub-tracks OF sub-tracks, plain or spatial, at any depth: every track has its own sub-track storage; a track leaves
+    its parent's storage by `Track::should_be_removed`)
 -/
 import KiraModel.Exec.Proto
 import KiraModel.Exec.Sched
@@ -48,6 +51,9 @@ structure LifeState where
   snd : LKind := ⟨Store.new 0, [], [], [], 0⟩
   /-- the sound storage of every sub-track ever created, by sub-track id -/
   tsounds : List (Nat × Store LRes) := []
+  /-- the sub-track storage of every sub-track ever created, by sub-track id (its resources carry the ids of the
+      tracks in it). `sub.handles`, `sub.marks` and `sub.nextId` serve the sub-tracks of every depth. -/
+  tsubs : List (Nat × Store LRes) := []
   nextSound : Nat := 0
 
 def LKind.new (cap : Nat) : LKind := ⟨Store.new cap, [], [], [], 0⟩
@@ -86,23 +92,65 @@ def finishedSound (r : LRes) : Bool := decide (r.len ≤ r.produced)
 def advance (frames : Nat) (s : Store LRes) : Store LRes :=
   { s with arena := s.arena.mapData (fun r => { r with produced := r.produced + frames }) }
 
-/-- `Track::on_start_processing` of every sub-track that is in the arena: its sounds' remove_and_add -/
-def tracksOnStart (ids : List Nat) (ts : List (Nat × Store LRes)) : Except SFault (List (Nat × Store LRes)) :=
-  ts.mapM (fun p =>
-    if ids.contains p.1 then
-      match p.2.removeAndAdd finishedSound with
-      | .error e => .error e
-      | .ok s => .ok (p.1, s)
-    else .ok p)
+/-- the builder default of `sound_capacity` / `sub_track_capacity` -/
+def defaultTrackCapacity : Nat := 128
+
+def setStore (ts : List (Nat × Store LRes)) (id : Nat) (s : Store LRes) : List (Nat × Store LRes) :=
+  ts.map (fun p => if p.1 == id then (p.1, s) else p)
+
+/-- mirrors: backend/resources.rs::ResourceStorage::has_pending -/
+def hasPending (s : Store LRes) : Bool := !s.newRing.items.isEmpty
+
+/-- mirrors: track/sub.rs::Track::should_be_removed (tracks that do not persist until their sounds finish):
+    no sub-track waiting to be added, every sub-track in the arena removable, the handle dropped -/
+def shouldRemove (marks : List Nat) (tsubs : List (Nat × Store LRes)) : Nat → Nat → Bool
+  | 0, _ => false
+  | fuel + 1, id =>
+    match tsubs.lookup id with
+    | none => marks.contains id
+    | some s => !hasPending s && s.iter.all (fun p => shouldRemove marks tsubs fuel p.2.id) && marks.contains id
+
+/-- mirrors: track/sub.rs::Track::on_start_processing of the track `id` and, recursively, of every track in its
+    sub-track arena: `sounds.remove_and_add(finished)`, `sub_tracks.remove_and_add(should_be_removed)`, the children -/
+def trackOnStart (marks : List Nat) (n : Nat) : Nat → List (Nat × Store LRes) × List (Nat × Store LRes) → Nat →
+    Except SFault (List (Nat × Store LRes) × List (Nat × Store LRes))
+  | 0, ts, _ => .ok ts
+  | fuel + 1, (tsounds, tsubs), id => do
+    let tsounds1 ← (match tsounds.lookup id with
+      | none => Except.ok tsounds
+      | some s => match s.removeAndAdd finishedSound with
+        | .error e => Except.error e
+        | .ok s' => Except.ok (setStore tsounds id s'))
+    match tsubs.lookup id with
+    | none => pure (tsounds1, tsubs)
+    | some s =>
+      match s.removeAndAdd (fun r => shouldRemove marks tsubs n r.id) with
+      | .error e => Except.error e
+      | .ok s' =>
+        (s'.iter.map (·.2.id)).foldlM (fun acc c => trackOnStart marks n fuel acc c) (tsounds1, setStore tsubs id s')
+
+/-- the tracks that are processed in a callback: those in the mixer's arena, and those in the arena of a processed track -/
+def activeTracks (tsubs : List (Nat × Store LRes)) : Nat → List Nat → List Nat
+  | 0, ids => ids
+  | fuel + 1, ids =>
+    ids ++ activeTracks tsubs fuel (ids.flatMap (fun id => match tsubs.lookup id with
+      | none => []
+      | some s => s.iter.map (·.2.id)))
 
 def resolves (k : LKind) : String :=
   let bits := k.handles.filterMap (fun h => h.map (fun h => if (k.store.arena.get? h.key).isSome then "1" else "0"))
   if bits.isEmpty then "-" else String.join bits
 
 def lifeCb (st : LifeState) (frames : Nat) : Except SFault (LifeState × String) := do
-  let sub ← st.sub.raa
-  let inArena := sub.store.iter.map (·.2.id)
-  let ts ← tracksOnStart inArena st.tsounds
+  let n := st.sub.nextId + 1
+  -- mirrors: backend/resources/mixer.rs::Mixer::on_start_processing: `sub_tracks.remove_and_add(should_be_removed)`, then every
+  -- sub-track in the arena (and, recursively, the tracks in its arena)
+  let sub ← (match st.sub.store.removeAndAdd (fun r => shouldRemove st.sub.marks st.tsubs n r.id) with
+    | .error e => Except.error e
+    | .ok s => Except.ok { st.sub with store := s })
+  let top := sub.store.iter.map (·.2.id)
+  let (ts, tsubs) ← top.foldlM (fun acc c => trackOnStart st.sub.marks n n acc c) (st.tsounds, st.tsubs)
+  let inArena := activeTracks tsubs n top
   let send ← st.send.raa
   let snd ← (match st.snd.store.removeAndAdd finishedSound with
     | .error e => Except.error e
@@ -113,17 +161,52 @@ def lifeCb (st : LifeState) (frames : Nat) : Except SFault (LifeState × String)
   -- process: every sound that is in an arena of the main track or of a sub-track in the arena advances
   let snd := { snd with store := advance frames snd.store }
   let ts := ts.map (fun p => if inArena.contains p.1 then (p.1, advance frames p.2) else p)
-  let st' : LifeState := { st with sub := sub, send := send, snd := snd, clock := clock, lis := lis, md := md, tsounds := ts }
-  let tcounts := sub.handles.filterMap (fun h => match h with
-    | some h => if h.dropped then none else (ts.lookup h.id).map (fun s => toString s.len)
-    | none => none)
-  let t := if tcounts.isEmpty then "-" else String.intercalate "." tcounts
-  pure (st', s!"n sub={sub.store.len} send={send.store.len} clock={clock.store.len} mod={md.store.len} snd={snd.store.len} t={t} clk={resolves clock} md={resolves md}")
+  let st' : LifeState := { st with sub := sub, send := send, snd := snd, clock := clock, lis := lis, md := md, tsounds := ts, tsubs := tsubs }
+  let counts (stores : List (Nat × Store LRes)) : String :=
+    let cs := sub.handles.filterMap (fun h => match h with
+      | some h => if h.dropped then none else (stores.lookup h.id).map (fun s => toString s.len)
+      | none => none)
+    if cs.isEmpty then "-" else String.intercalate "." cs
+  pure (st', s!"n sub={sub.store.len} send={send.store.len} clock={clock.store.len} mod={md.store.len} snd={snd.store.len} t={counts ts} s={counts tsubs} clk={resolves clock} md={resolves md}")
 
 def showPlay : Store.PlayResult → String
   | .intoSoundError => "err"
   | .limit => "limit"
   | .ok _ => "ok"
+
+/-- a (plain or spatial) sub-track of the mixer with sound capacity `sc` and sub-track capacity `tc`.
+    mirrors: manager.rs::AudioManager::add_sub_track / add_spatial_sub_track, track/sub/builder.rs::TrackBuilder::build,
+    track/sub/spatial_builder.rs::SpatialTrackBuilder::build (each storage sized by its own capacity field) -/
+def addTop (st : LifeState) (sc tc : Nat) : Except SFault (LifeState × String) :=
+  match st.sub.add ⟨st.sub.nextId, 0, 0⟩ with
+  | .error e => .error e
+  | .ok (k, ok) =>
+    let st' := { st with sub := k,
+                         tsounds := if ok then st.tsounds ++ [(st.sub.nextId, Store.new sc)] else st.tsounds,
+                         tsubs := if ok then st.tsubs ++ [(st.sub.nextId, Store.new tc)] else st.tsubs }
+    .ok (st', s!"{if ok then "ok" else "limit"} n={k.store.len}{if ok then s!" cap={sc}/{tc}" else ""}")
+
+/-- a (plain or spatial) sub-track of the `p`-th sub-track (of any depth).
+    mirrors: track/sub/handle.rs::TrackHandle::add_sub_track / add_spatial_sub_track and the same two of
+    track/sub/spatial_handle.rs::SpatialTrackHandle -/
+def addChild (st : LifeState) (p sc tc : Nat) : Except SFault (LifeState × String) :=
+  match st.sub.handles[p]? with
+  | some (some h) =>
+    if h.dropped then .ok (st, "skip") else
+    match st.tsubs.lookup h.id with
+    | none => .ok (st, "skip")
+    | some s =>
+      let id := st.sub.nextId
+      match s.insert ⟨id, 0, 0⟩ with
+      | .error e => .error e
+      | .ok (r, s') =>
+        let ok := r.isSome
+        let handle : Option LHandle := r.map (fun key => ⟨id, key, false⟩)
+        let st' := { st with sub := { st.sub with handles := st.sub.handles ++ [handle], nextId := id + 1 },
+                             tsubs := (setStore st.tsubs h.id s') ++ (if ok then [(id, Store.new tc)] else []),
+                             tsounds := if ok then st.tsounds ++ [(id, Store.new sc)] else st.tsounds }
+        .ok (st', s!"{if ok then "ok" else "limit"} n={s'.len}{if ok then s!" cap={sc}/{tc}" else ""}")
+  | _ => .ok (st, "skip")
 
 def lifeStepE (st : LifeState) (tok : List String) : Option (Except SFault (LifeState × String)) :=
   match tok with
@@ -132,22 +215,29 @@ def lifeStepE (st : LifeState) (tok : List String) : Option (Except SFault (Life
       pure (.ok ({ live := true, sub := .new a, send := .new b, clock := .new c, md := .new d, lis := .new e, snd := .new f }, "ok"))
   | ["add", "sub", sc] => do
       let sc ← nat? sc
-      pure (match st.sub.add ⟨st.sub.nextId, 0, 0⟩ with
-        | .error e => .error e
-        | .ok (k, ok) =>
-          let st' := { st with sub := k, tsounds := if ok then st.tsounds ++ [(st.sub.nextId, Store.new sc)] else st.tsounds }
-          .ok (st', s!"{if ok then "ok" else "limit"} n={k.store.len}"))
+      pure (addTop st sc defaultTrackCapacity)
+  | ["add", "sub", sc, tc] => do
+      let sc ← nat? sc; let tc ← nat? tc
+      pure (addTop st sc tc)
   | ["add", "spat", l, sc] => do
       -- a spatial sub-track lives in the same storage as the plain ones; it needs the id of a listener
       -- that was created (the l-th `add lis` succeeded)
       let l ← nat? l; let sc ← nat? sc
       match st.lis.handles[l]? with
-      | some (some _) =>
-        pure (match st.sub.add ⟨st.sub.nextId, 0, 0⟩ with
-          | .error e => .error e
-          | .ok (k, ok) =>
-            let st' := { st with sub := k, tsounds := if ok then st.tsounds ++ [(st.sub.nextId, Store.new sc)] else st.tsounds }
-            .ok (st', s!"{if ok then "ok" else "limit"} n={k.store.len}"))
+      | some (some _) => pure (addTop st sc defaultTrackCapacity)
+      | _ => pure (.ok (st, "skip"))
+  | ["add", "spat", l, sc, tc] => do
+      let l ← nat? l; let sc ← nat? sc; let tc ← nat? tc
+      match st.lis.handles[l]? with
+      | some (some _) => pure (addTop st sc tc)
+      | _ => pure (.ok (st, "skip"))
+  | ["tadd", p, "sub", sc, tc] => do
+      let p ← nat? p; let sc ← nat? sc; let tc ← nat? tc
+      pure (addChild st p sc tc)
+  | ["tadd", p, "spat", l, sc, tc] => do
+      let p ← nat? p; let l ← nat? l; let sc ← nat? sc; let tc ← nat? tc
+      match st.lis.handles[l]? with
+      | some (some _) => pure (addChild st p sc tc)
       | _ => pure (.ok (st, "skip"))
   | ["add", kind] =>
       let go (k : LKind) (set : LKind → LifeState) (showN : Bool) : Except SFault (LifeState × String) :=
